@@ -1256,6 +1256,96 @@ func genT2fixed(c *Ctx) {
 		c.Case(Verdict, "t2.dec", newT2env().args(code), true)
 		c.Case(Direct, "t2.rejects", newT2env().args(code), true)
 	}
+	// every comparison of operand VALUES in the decoder, at equality and next to it
+	// flex1: |dx| vs |dy| of the first five pairs (tie -> the last operand is vertical), plain and inside a subroutine
+	for _, t := range [][2]int{{20, 20}, {20, -20}, {-20, 20}, {-20, -20}, {0, 0}, {21, 20}, {20, 21}, {19, 20}, {20, 19},
+		{-21, 20}, {20, -21}, {1, 0}, {0, 1}, {0, -1}, {-1, 0}} {
+		a := []int{3, 4, 5, -2, -6, 7, 2, 1, 0, 0}
+		sx, sy := 0, 0
+		for i := 0; i < 8; i += 2 {
+			sx += a[i]
+			sy += a[i+1]
+		}
+		a[8], a[9] = t[0]-sx, t[1]-sy
+		var ops []byte
+		for _, v := range a {
+			ops = append(ops, num(v)...)
+		}
+		ops = append(ops, num(9)...)
+		ops = append(ops, 12, 37)
+		c.Stat("t2.value-comparison-probe", fmt.Sprintf("flex1 dx=%d dy=%d", t[0], t[1]))
+		code := cat(mv, ops, []byte{14})
+		c.Case(Verdict, "t2.dec", newT2env().args(code), true)
+		c.Case(Direct, "t2.spec", newT2env().args(code), true)
+		env := newT2env()
+		env.ns = 1
+		env.setSubr(false, 0, cat(ops, []byte{11}))
+		code = cat(mv, num(-107), []byte{10, 14})
+		c.Case(Verdict, "t2.dec", env.args(code), true)
+		c.Case(Direct, "t2.spec", env.args(code), true)
+	}
+	esc := func(b byte) []byte { return []byte{12, b} }
+	for name, body := range map[string][]byte{
+		"ifelse v1=v2":             cat(num(1), num(2), num(5), num(5), esc(22), num(7)),
+		"ifelse v1<v2":             cat(num(1), num(2), num(5), num(6), esc(22), num(7)),
+		"ifelse v1>v2":             cat(num(1), num(2), num(6), num(5), esc(22), num(7)),
+		"roll j=0":                 cat(num(1), num(2), num(3), num(3), num(0), esc(30), num(7)),
+		"roll j=n":                 cat(num(1), num(2), num(3), num(3), num(3), esc(30), num(7)),
+		"roll j=-n":                cat(num(1), num(2), num(3), num(3), num(-3), esc(30), num(7)),
+		"roll j=2n":                cat(num(1), num(2), num(3), num(3), num(6), esc(30), num(7)),
+		"roll j=-1":                cat(num(1), num(2), num(3), num(3), num(-1), esc(30), num(7)),
+		"roll j=n+1":               cat(num(1), num(2), num(3), num(3), num(4), esc(30), num(7)),
+		"roll n=1":                 cat(num(1), num(2), num(3), num(1), num(5), esc(30), num(7)),
+		"roll n=2 of 3":            cat(num(1), num(2), num(3), num(2), num(1), esc(30), num(7)),
+		"index 0":                  cat(num(1), num(2), num(0), esc(29), num(7)),
+		"index -1":                 cat(num(1), num(2), num(-1), esc(29), num(7)),
+		"index = depth-1 (bottom)": cat(num(1), num(2), num(1), esc(29), num(7)),
+		"sqrt 0":                   cat(num(0), esc(26), num(7)),
+		"sqrt 4":                   cat(num(4), esc(26), num(7)),
+		"div 6 3":                  cat(num(6), num(3), esc(12), num(7)),
+		"div 0 5":                  cat(num(0), num(5), esc(12), num(7)),
+		"div -6 3":                 cat(num(-6), num(3), esc(12), num(7)),
+		"eq equal":                 cat(num(4), num(4), esc(15), num(7)),
+		"eq unequal":               cat(num(4), num(5), esc(15), num(7)),
+		"not 0":                    cat(num(0), esc(5), num(7)),
+		"not 3":                    cat(num(3), esc(5), num(7)),
+		"abs 0":                    cat(num(0), esc(9), num(7)),
+		"abs -5":                   cat(num(-5), esc(9), num(7)),
+		"and 0 3":                  cat(num(0), num(3), esc(3), num(7)),
+		"or 0 0":                   cat(num(0), num(0), esc(4), num(7)),
+		"put 0 get 0":              cat(num(9), num(0), esc(20), num(0), esc(21), num(7)),
+		"put 31 get 31":            cat(num(9), num(31), esc(20), num(31), esc(21), num(7)),
+		"neg 0":                    cat(num(0), esc(14), num(7)),
+		"random":                   cat(esc(23), num(7)),
+	} {
+		c.Stat("t2.value-comparison-probe", name)
+		code := cat(mv, body, []byte{5, 14})
+		c.Case(Verdict, "t2.dec", newT2env().args(code), true)
+		c.Case(Direct, "t2.spec", newT2env().args(code), true)
+	}
+	for name, body := range map[string][]byte{
+		"roll n=depth+1":  cat(num(1), num(2), num(3), num(1), esc(30)),
+		"roll n=-1":       cat(num(1), num(2), num(-1), num(1), esc(30)),
+		"index = depth":   cat(num(1), num(2), num(2), esc(29)),
+		"put 32":          cat(num(9), num(32), esc(20)),
+		"put -1":          cat(num(9), num(-1), esc(20)),
+		"get before put":  cat(num(0), esc(21)),
+		"get 32 after put": cat(num(9), num(0), esc(20), num(32), esc(21)),
+	} {
+		c.Stat("t2.value-comparison-probe", name+" (must be rejected)")
+		code := cat(mv, body, num(1), num(1), []byte{5, 14})
+		c.Case(Verdict, "t2.dec", newT2env().args(code), true)
+		c.Case(Direct, "t2.rejects", newT2env().args(code), true)
+	}
+	// value-dependent leniencies of the Go decoder (quirks divByZeroIsZero, sqrtNegIsZero, rollZeroRejected): model only
+	for name, body := range map[string][]byte{
+		"div by 0":    cat(num(5), num(0), esc(12), num(7)),
+		"sqrt -4":     cat(num(-4), esc(26), num(7)),
+		"roll n=0":    cat(num(1), num(2), num(0), num(1), esc(30)),
+	} {
+		c.Stat("t2.value-comparison-probe", name+" (Go-specific, model only)")
+		c.Case(Verdict, "t2.dec", newT2env().args(cat(mv, body, []byte{5, 14})), true)
+	}
 	// known operand-count leniency (documented in cfg partial, not a fault class of C05_rejects): the Go decoder
 	// accepts, the specification rejects; compared with the model only
 	c.Stat("t2.outside-theorem-probe", "endchar with 2 operands (Go lenient: accepts; specification: operand-count error)")
